@@ -32,8 +32,9 @@ def _rows(ra_obj):
     return [[int(v) for v in np.asarray(r).reshape(-1)] for r in ra_obj]
 
 
-def observe(ra_mod, a, exp):
-    """all observers of the object vs the expected rows; returns list of failing observer names"""
+def observe(ra_mod, a, exp, dt=None):
+    """all observers of the object vs the expected rows; returns list of failing observer names. dt: the element type
+    the array was built with -- rows and flat data must keep it through every write (an ndarray row does)"""
     bad = []
 
     def chk(name, f):
@@ -58,7 +59,66 @@ def observe(ra_mod, a, exp):
     chk("min", lambda: int(a.min()) == min(flat))
     chk("size", lambda: int(a.size) == len(flat))
     chk("shape", lambda: a.shape[0] == len(exp) and (a.shape[1] == lens[0] if len(set(lens)) == 1 else a.shape[1] is None))
+    if dt is not None:
+        chk("flatten-dtype", lambda: a.flatten().dtype == dt)
+        chk("row-dtype", lambda: all(np.asarray(a[i]).dtype == dt for i in range(len(exp))))
+        chk("rowslice-dtype", lambda: a[0:len(exp)].flatten().dtype == dt)
     return bad
+
+
+class BoolTwin:
+    """a boolean array that receives the same writes (value v becomes v > 1) at the same places: after every step
+    ~twin must be the element-wise negation and select the complement"""
+
+    def __init__(self, ra_mod, init):
+        self.ra = ra_mod
+        self.b = ra_mod.RaggedArray([np.array(r) > 1 for r in init])
+        self.alive = True
+
+    def write(self, a, op):
+        """a: the integer array BEFORE the operation"""
+        n = op["op"]
+        b = self.b
+        f = lambda v: bool(v > 1)          # noqa: E731
+        if n == "setelem":
+            b[op["r"], op["c"]] = f(op["v"])
+        elif n == "setrow":
+            b[op["r"]] = np.array(op["vals"]) > 1
+        elif n == "setrowslice":
+            b[op["r"], slice(_n(op["a"]), _n(op["b"]), _n(op["st"]))] = f(op["v"])
+        elif n == "setblock":
+            b[slice(_n(op["ra"]), _n(op["rb"])), slice(_n(op["ca"]), _n(op["cb"]))] = f(op["v"])
+        elif n == "setcol":
+            b[slice(_n(op["ra"]), _n(op["rb"])), op["c"]] = f(op["v"])
+        elif n == "setpairs":
+            b[(list(op["rs"]), list(op["cs"]))] = [f(v) for v in op["vals"]]
+        elif n == "setrows":
+            vals = [np.array(v) > 1 for v in op["vals"]]
+            b[slice(_n(op["ra"]), _n(op["rb"]))] = self.ra.RaggedArray(vals) if op["asRA"] else vals
+        elif n == "append":
+            vals = [np.array(v) > 1 for v in op["vals"]]
+            b.append(self.ra.RaggedArray(vals) if op["asRA"] else vals)
+        elif n in ("setmask", "setmaskcols", "augmented"):
+            self.alive = False             # (positions / values depend on the integer values: the twin stops here)
+
+    def check(self, a, exp):
+        want = [[v > 1 for v in r] for r in exp]
+        bad = []
+        try:
+            got = [[bool(v) for v in np.asarray(r).reshape(-1)] for r in self.b]
+            if got != want:
+                return ["bool-twin-rows"]
+            inv = ~self.b
+            if [[v for v in np.asarray(r).reshape(-1).tolist()] for r in inv] != [[not v for v in r] for r in want]:
+                bad.append("bool-twin-invert")
+            sel = a[inv]
+            if sorted(int(v) for v in np.asarray(sel).reshape(-1)) != sorted(v for r in exp for v in r if not v > 1):
+                bad.append("bool-twin-invert-selects")
+            if self.b.flatten().dtype != np.bool_:
+                bad.append("bool-twin-dtype")
+        except Exception as ex:
+            bad.append("bool-twin(raises %s)" % type(ex).__name__)
+        return bad
 
 
 def replay_case(arg):
@@ -94,7 +154,9 @@ def replay_case(arg):
     caller = callers[0] if callers and form not in ("nested",) else None
     callers0 = [c.copy() for c in callers]
     out = []
-    b0 = observe(ra, a, init)
+    dt0 = a.flatten().dtype
+    twin = BoolTwin(ra, init)
+    b0 = observe(ra, a, init, dt0)
     if b0:
         out.append(("construct/%s" % form, 0, b0, None))
         return out
@@ -105,6 +167,8 @@ def replay_case(arg):
         name = op["op"]
         site = name
         try:
+            if twin.alive:
+                twin.write(a, op)
             if name == "setelem":
                 a[op["r"], op["c"]] = op["v"]
             elif name == "setrow":
@@ -143,6 +207,16 @@ def replay_case(arg):
                     out.append((site, i + 1, ["operator-returns-alias"], None))
                 if _rows(a) != before:
                     out.append((site, i + 1, ["operand-modified"], None))
+            elif name == "invert":
+                before = _rows(a)
+                r = ~a
+                got = [[int(v) for v in row] for row in r]
+                if got != expres["v"]:
+                    out.append((site, i + 1, ["operator-result"], {"got": got, "expected": expres["v"]}))
+                if r is a or np.shares_memory(np.asarray(r._data), np.asarray(a._data)):
+                    out.append((site, i + 1, ["operator-returns-alias"], None))
+                if _rows(a) != before:
+                    out.append((site, i + 1, ["operand-modified"], None))
             elif name == "augmented":
                 prev_obj = a
                 site = "augmented/%s" % op["o"]
@@ -168,7 +242,9 @@ def replay_case(arg):
         except Exception as ex:
             out.append((site, i + 1, ["raises-%s" % type(ex).__name__], "%s: %s" % (type(ex).__name__, str(ex)[:160])))
             return out
-        bad = observe(ra, a, exp)
+        bad = observe(ra, a, exp, dt0)
+        if not bad and twin.alive:
+            bad = twin.check(a, exp)
         if bad:
             out.append((site, i + 1, bad, {"expected": exp, "iteration": _safe_rows(a)}))
             return out
